@@ -284,6 +284,7 @@ func outputJudgeCase(id string, oc outCase, a outAnswer, th thrSpec) (map[string
 	headers := []map[string]interface{}{}
 	extra := len(pt.Malformed)
 	nref := 0
+	refrows := []map[string]interface{}{}
 	for _, r := range pt.Rows {
 		if r.Header {
 			if r.Name == "" {
@@ -297,6 +298,26 @@ func outputJudgeCase(id string, oc outCase, a outAnswer, th thrSpec) (map[string
 		if f == "" {
 			if len(r.Path) >= 2 && r.Path[1] == "References" {
 				nref++
+				// a reference-group row: a unit-less count (powers of 1000) with its marker
+				rr := map[string]interface{}{"k": -1, "d": 0, "D": 0, "exact": []int{}, "inf": r.Value == "∞", "stars": 0, "bangs": false, "unit": "?"}
+				if r.Value == "∞" {
+					rr["k"], rr["unit"] = 0, r.Unit
+				} else {
+					hj := humanJudgeCase("", humanCase{1000, big.NewInt(0), r.Value, r.Unit})
+					rr["k"], rr["d"], rr["D"], rr["exact"] = hj["k"], hj["d"], hj["D"], hj["exact"]
+					if hj["k"].(int) >= 0 {
+						rr["unit"] = "" // the whole unit cell was a metric prefix (or empty)
+					}
+				}
+				switch {
+				case r.Marker == strings.Repeat("!", 30):
+					rr["bangs"] = true
+				case strings.Trim(r.Marker, "*") == "":
+					rr["stars"] = len(r.Marker)
+				default:
+					rr["stars"] = -1
+				}
+				refrows = append(refrows, rr)
 			} else {
 				extra++
 			}
@@ -338,7 +359,7 @@ func outputJudgeCase(id string, oc outCase, a outAnswer, th thrSpec) (map[string
 	c := map[string]interface{}{"id": id, "vals": vals, "v2": v2vals,
 		"thr":        map[string]interface{}{"neg": th.Neg, "tf": th.TF, "td": th.TD},
 		"noproblems": pt.NoProblems, "rows": rows, "headers": headers, "wtext": wtext, "foot": foot,
-		"extra": extra, "nrefrows": nref, "refvals": refvals}
+		"extra": extra, "nrefrows": nref, "refvals": refvals, "refrows": refrows}
 	return c, goBad
 }
 
@@ -523,13 +544,19 @@ func uniformRowCases() []outCase {
 			}
 			oc.HS[it.Field] = x.String()
 		}
+		// reference-group rows carry the same value: a short name, a name as wide as the column, wider ones, nested
+		if v.Cmp(new(big.Int).SetUint64(math.MaxUint32)) < 0 && v.Sign() > 0 {
+			oc.Groups = [][3]string{{"ga", "Short", v.String()}, {"gb", "Feature branches of all the teams", v.String()},
+				{"gb.sub", "A nested group with quite a long display name", v.String()}, {"gc", strings.Repeat("w", 28), v.String()}}
+		}
 		out = append(out, oc)
 	}
 	return out
 }
 
 func isHumanPred(p string) bool {
-	return p == "value_cell_not_rendering_of_json_value" || p == "row_label_or_unit" || p == "renderer_panics"
+	return p == "value_cell_not_rendering_of_json_value" || p == "row_label_or_unit" || p == "renderer_panics" || p == "refgroup_row_not_rendering_of_a_group_count" ||
+		p == "unexpected_rows" // a row whose value / unit cells do not fit the table's grammar is no rendering of a number either
 }
 
 // floatLevelExplains recognises KF-D15 and nothing else: the rows that were shown are exactly those for which
